@@ -48,6 +48,16 @@ func enumLine(pl, indent string) string {
 	return ""
 }
 
+func zeroLine(pl, indent string) string {
+	switch pl {
+	case "yes":
+		return indent + "// goverter:useZeroValueOnPointerInconsistency yes\n"
+	case "no":
+		return indent + "// goverter:useZeroValueOnPointerInconsistency no\n"
+	}
+	return ""
+}
+
 func regexLine(pl, indent string) string {
 	switch pl {
 	case "match":
@@ -102,8 +112,13 @@ func cmdWitness(args []string) {
 	b := hx.NewBatch(*work)
 	b.WriteGoMod()
 	var src strings.Builder
-	src.WriteString("package p\n\nimport (\n\t\"errors\"\n\n\t\"" + b.Mod + "/ea\"\n\t\"" + b.Mod + "/eb\"\n)\n\ntype Inner struct{ V string }\ntype Inner2 struct{ V int }\ntype S1 struct{ I Inner }\ntype T1 struct{ I Inner2 }\ntype S2 struct{ J Inner }\ntype T2 struct{ J Inner2 }\ntype S3 struct{ K string }\ntype T3 struct{ K int }\ntype SE1 struct{ C ea.Col }\ntype TE1 struct{ C eb.Col }\ntype SE2 struct{ C ea.Col }\ntype TE2 struct{ C eb.Col }\ntype In6 struct{ L []int }\ntype Cu struct{ Tags []int }\ntype CuD struct{ Tags []int }\ntype S6 struct {\n\tI In6\n\tC Cu\n}\ntype T6 struct {\n\tI In6\n\tC CuD\n}\ntype S7 struct {\n\tI In6\n\tC Cu\n}\ntype T7 struct {\n\tI In6\n\tC CuD\n}\ntype S4 struct{ V string }\ntype T4 struct{ V string }\ntype S5 struct{ V string }\ntype T5 struct{ V string }\n\nfunc Fn(v string, kx int) string { return v }\n\nfunc Atoi(s string) (int, error) { return 0, errors.New(\"boom\") }\n")
+	src.WriteString("package p\n\nimport (\n\t\"errors\"\n\n\t\"" + b.Mod + "/ea\"\n\t\"" + b.Mod + "/eb\"\n)\n\ntype Inner struct{ V string }\ntype Inner2 struct{ V int }\ntype S1 struct{ I Inner }\ntype T1 struct{ I Inner2 }\ntype S2 struct{ J Inner }\ntype T2 struct{ J Inner2 }\ntype S3 struct{ K string }\ntype T3 struct{ K int }\ntype SE1 struct{ C ea.Col }\ntype TE1 struct{ C eb.Col }\ntype SE2 struct{ C ea.Col }\ntype TE2 struct{ C eb.Col }\ntype Wrap struct{ P *int }\ntype Wrap2 struct{ P int }\ntype SZ1 struct {\n\tQ *int\n\tW Wrap\n}\ntype TZ1 struct {\n\tQ int\n\tW Wrap2\n}\ntype SZ2 struct {\n\tQ *int\n\tW Wrap\n}\ntype TZ2 struct {\n\tQ int\n\tW Wrap2\n}\ntype In6 struct{ L []int }\ntype Cu struct{ Tags []int }\ntype CuD struct{ Tags []int }\ntype S6 struct {\n\tI In6\n\tC Cu\n}\ntype T6 struct {\n\tI In6\n\tC CuD\n}\ntype S7 struct {\n\tI In6\n\tC Cu\n}\ntype T7 struct {\n\tI In6\n\tC CuD\n}\ntype S4 struct{ V string }\ntype T4 struct{ V string }\ntype S5 struct{ V string }\ntype T5 struct{ V string }\n\nfunc Fn(v string, kx int) string { return v }\n\nfunc Atoi(s string) (int, error) { return 0, errors.New(\"boom\") }\n")
 	for i, s := range scens {
+		if s.Kind == "zeroflag" {
+			fmt.Fprintf(&src, "\n// goverter:converter\n%s// goverter:output:file ../gen/c%d.go\n// goverter:output:package %s/gen\ntype C%d interface {\n%s\tM1(source SZ1) TZ1\n%s\tM2(source SZ2) TZ2\n}\n",
+				zeroLine(s.PC, ""), i, b.Mod, i, zeroLine(s.P1, "\t"), zeroLine(s.P2, "\t"))
+			continue
+		}
 		if s.Kind == "emptypath" {
 			fmt.Fprintf(&src, "\n// goverter:converter\n// goverter:extend Atoi\n// goverter:wrapErrorsUsing %s/wx\n// goverter:output:file ../gen/c%d.go\n// goverter:output:package %s/gen\ntype C%d interface {\n\tM1(source *string) (*int, error)\n}\n", b.Mod, i, b.Mod, i)
 			continue
@@ -177,7 +192,7 @@ func cmdWitness(args []string) {
 				sl := func(n int) any { return map[string]any{"k": "s", "a": "i", "es": []any{map[string]any{"k": "b", "tok": fmt.Sprintf("#%d", n)}}} }
 				arg := stv(stv(sl(1)), stv(sl(2)))
 				w.Write(map[string]any{"ins": []any{}, "calls": []any{map[string]any{"args": []any{arg}, "dump": []int{}}}})
-			} else if o.Gen == "ok" && (scens[i].Kind == "ctxregex" || scens[i].Kind == "ctxregexfn") {
+			} else if o.Gen == "ok" && (scens[i].Kind == "ctxregex" || scens[i].Kind == "ctxregexfn" || scens[i].Kind == "zeroflag") {
 				if m == 1 {
 					b.WriteOutputs(i, o.Files) // compiled with the rest of the gen package; not executed
 				}
